@@ -13,10 +13,13 @@
    field, field type not a valid implementation type, interface argument missing or of another type, an
    additional required argument, `implements` naming an undefined type or a non-interface) is refused, for
    every schema whose interface fields do not use the reserved meta-field names.
-   PARTIAL: completeness for every kind of invalid extension is decided per rewritten model by the check
-   (specification predicates in Coq vs create_engine), not proved. *)
+   Also proved (Proofs/SchemaExtensions.v): an extension the specification predicate refuses (unknown target,
+   another kind, a member -- enum value, field, input field, interface, union member -- that exists already, a
+   directive the target already carries, a schema directive already there) makes the build fail.
+   PARTIAL: `extend schema` naming an operation twice / an operation whose type is defined is decided per
+   rewritten model by the check (specification predicates in Coq vs create_engine), not proved. *)
 From Coq Require Import ZArith List String Bool.
-From TV Require Import Py.Prelude Model.Schema Model.ImplValidate Model.SchemaBuild Model.SpecSchema Proofs.SchemaProofs Proofs.SchemaInterfaces
+From TV Require Import Py.Prelude Model.Schema Model.ImplValidate Model.SchemaBuild Model.SpecSchema Proofs.SchemaProofs Proofs.SchemaInterfaces Proofs.SchemaExtensions
      Gen.Wiring_gen Proofs.Wiring.
 Import ListNotations.
 Open Scope string_scope.
@@ -47,6 +50,14 @@ Theorem C12_validator_reports_unhonoured_interfaces g :
   (forall i, iface_fields_plain g i) -> v_interface_not_honoured g = true -> v_follow_interfaces g <> Some [].
 Proof. exact (interfaces_not_honoured_reported g). Qed.
 
+(* invalid extensions: whatever the specification's `ext_ok` refuses, the build refuses *)
+Theorem C12_invalid_extension_rejected s : v_invalid_extension s = true -> builds s = false.
+Proof. exact (build_rejects_invalid_extensions s). Qed.
+
+Theorem C12_extension_validators_report_invalid_extensions s g0 :
+  initial s = inl g0 -> v_invalid_extension s = true -> validate_extensions g0 (s_exts s) <> [].
+Proof. exact (invalid_extension_reported s g0). Qed.
+
 (* tie to the current source (regenerated on every run): the validator lists and the order of the
    steps of GraphQLSchema.bake are the ones the build model transcribes *)
 Theorem C12_source_runs_the_modelled_validators :
@@ -73,3 +84,5 @@ Print Assumptions C12_validators_report_defects.
 Print Assumptions C12_interface_type_check_exact.
 Print Assumptions C12_unhonoured_interface_rejected.
 Print Assumptions C12_validator_reports_unhonoured_interfaces.
+Print Assumptions C12_invalid_extension_rejected.
+Print Assumptions C12_extension_validators_report_invalid_extensions.
